@@ -56,7 +56,7 @@ inline int vkind(Verdict const& v) { return !v.overflow ? 0 : v.exact == static_
 void explore(Options const& o, std::vector<Shim*> const& shims, std::vector<Shim*> const&, Recorder& rec)
   {
   bool thorough = o.tier == "thorough";
-  std::vector<i64> S = thorough ? S_set(6,4) : S_set(4,2);
+  std::vector<i64> S = merge_sets(thorough ? S_set(6,4) : S_set(4,2), D_set(thorough ? 1 : 0));       // + digit-pattern words
   std::vector<i64> Sbig = thorough ? S_set(9,6) : S_set(7,4);       // operand of the constant / self shapes
   std::vector<i64> Sg = thorough ? S_set(4,2) : S_set(3,1);          // pairs under caller-side guards
   rec.note("alphabet", "pairs S(" + std::string(thorough ? "6,4" : "4,2") + ")^2 |S|=" + std::to_string(S.size())
@@ -111,6 +111,8 @@ void explore(Options const& o, std::vector<Shim*> const& shims, std::vector<Shim
         // directed partners of this a (a is the left operand, the enumerated partner the right one)
         std::vector<i64> part;
         for( i128 T : TARGETS ) for( int d = -2; d <= 2; ++d ) { i128 b = is_sub(op) ? static_cast<i128>(a) - T - d : T + d - a; if( b >= FX_LOWEST && b <= FX_MAX ) part.push_back(static_cast<i64>(b)); }
+        // the partner whose magnitude is the bit-complement of |a| (|a| | |b| has all 63 bits set, no carries anywhere), both signs, +-1
+        { i64 cm = FX_NAN ^ (a < 0 ? -a : a); for( int sg = 0; sg < 2; ++sg ) for( int d = -1; d <= 1; ++d ) { i128 b = static_cast<i128>(sg ? -cm : cm) + d; if( b >= FX_LOWEST && b <= FX_MAX ) part.push_back(static_cast<i64>(b)); } }
         std::vector<i64> pout(part.size());
         s->fm_bin_row(op, a, part.data(), part.size(), pout.data());
         for( size_t ib = 0; ib < part.size(); ++ib )
